@@ -1,6 +1,409 @@
-/- C11 — property theorems.  Stub. -/
-import CBV.Model.C11
+/-
+C11 — property theorems: predefined shapes give conformal, fully choppable blockings.
+
+Part A (all blockings): the model's `Mesh.write` succeeds exactly when every block axis is reachable
+  from a chopped axis through shared wires; the closure never runs out of fuel.
+Part B (tables regenerated from the source on every run, `decide`): every sketch class and every probe
+  shape is fully choppable by its documented chop calls, calls never collide in a wire family, quad maps
+  are conformal and consistently oriented, lofting the quad map gives the blocking `Mesh.assemble` builds.
+Part C (all sizes): rings with any number of segments, stacks with any number of tiers, the interface of
+  consecutive tiers (chained shapes at index level).
+Part D (geometry): the corner Jacobians used by the handedness validator are invariant under
+  translations and scale with the determinant under linear maps (positive for rotations and scalings).
+-/
+import CBV.Lemmas.C11Chain
+import Mathlib.Tactic.Ring
+import Mathlib.Tactic.Linarith
+import Mathlib.Algebra.Order.Field.Rat
 
 namespace CBV.C11
+
+/-! ## Part A — write succeeds iff every axis is reachable from a chopped one -/
+
+/-- the propagation always terminates within its fuel and defines exactly the reachable axes -/
+theorem T_C11_defined_iff_reachable (B : Blocking) (chops : List Nat) :
+    ∃ d, closure B chops = some d ∧ ∀ n, n ∈ d ↔ Reach (wireTable B) chops n := by
+  have hs := closureT_isSome (wireTable B) chops
+  unfold closure
+  cases h : closureT (wireTable B) chops with
+  | none => simp [h] at hs
+  | some d =>
+    exact ⟨d, rfl, fun n => ⟨closureT_sound _ _ _ h n, closureT_complete _ _ _ h n⟩⟩
+
+/-- `Mesh.write` (as modelled) succeeds iff every axis of every block is chopped or connected to a
+    chopped axis by a chain of shared wires -/
+theorem T_C11_write_ok_iff (B : Blocking) (chops : List Nat) :
+    writeOk B chops = true ↔ ∀ n, n < 3 * B.length → Reach (wireTable B) chops n := by
+  obtain ⟨d, hd, hr⟩ := T_C11_defined_iff_reachable B chops
+  unfold writeOk writeResult
+  rw [hd]
+  simp only
+  constructor
+  · intro h n hn
+    split at h
+    · rename_i hu
+      split at hu
+      · rename_i hnil
+        exact (hr n).mp ((undefinedBlocks_nil_iff B d).mp hnil n hn)
+      · cases hu
+    · cases h
+  · intro h
+    have hnil : undefinedBlocks B d = [] := (undefinedBlocks_nil_iff B d).mpr (fun n hn => (hr n).mpr (h n hn))
+    simp [hnil]
+
+/-- when two chopped axes are `separated`, neither is reachable from the other alone -/
+theorem T_C11_separated (B : Blocking) (chops : List Nat) (h : separated B chops = true) :
+    ∀ s ∈ chops, ∀ t ∈ chops, t ≠ s → ¬ Reach (wireTable B) [s] t := by
+  intro s hs t ht hne hreach
+  unfold separated separatedT at h
+  rw [List.all_eq_true] at h
+  have h1 := h s hs
+  split at h1
+  · rename_i d hd
+    rw [List.all_eq_true] at h1
+    have h2 := h1 t ht
+    have hmem : t ∈ d := closureT_complete _ _ _ hd t hreach
+    have : memN t d = true := memN_iff.mpr hmem
+    simp only [this, Bool.not_true, Bool.or_false] at h2
+    exact hne (Nat.eq_of_beq_eq_true h2)
+  · cases h1
+
+/-! ## Part B — the generated tables -/
+
+/-- the sketch classes the table covers (a class that disappears from the table is noticed here) -/
+theorem T_C11_sketch_table :
+    CBV.Gen.c11Sketches.map (·.1) =
+      ["OneCoreDisk", "QuarterDisk", "HalfDisk", "FourCoreDisk", "WrappedDisk", "Oval", "QuarterSplineDisk",
+        "HalfSplineDisk", "SplineDisk", "QuarterSplineRing", "HalfSplineRing", "SplineRing"] := by decide
+
+/-- per sketch class (`sketchChoppable`): on the shape lofted from the quad map, the documented calls
+    `chop(0)`, `chop(1)`, `chop(2)` (evaluated through `Sketch.chops`) reach every axis of every block
+    (`writeOk`), and no two chopped axes lie in one wire family (`separated`) -/
+theorem T_C11_choppable_OneCoreDisk : sketchNamed "OneCoreDisk" sketchChoppable = true := by decide +kernel
+theorem T_C11_choppable_QuarterDisk : sketchNamed "QuarterDisk" sketchChoppable = true := by decide +kernel
+theorem T_C11_choppable_HalfDisk : sketchNamed "HalfDisk" sketchChoppable = true := by decide +kernel
+theorem T_C11_choppable_FourCoreDisk : sketchNamed "FourCoreDisk" sketchChoppable = true := by decide +kernel
+theorem T_C11_choppable_WrappedDisk : sketchNamed "WrappedDisk" sketchChoppable = true := by decide +kernel
+theorem T_C11_choppable_Oval : sketchNamed "Oval" sketchChoppable = true := by decide +kernel
+theorem T_C11_choppable_QuarterSplineDisk : sketchNamed "QuarterSplineDisk" sketchChoppable = true := by
+  decide +kernel
+theorem T_C11_choppable_HalfSplineDisk : sketchNamed "HalfSplineDisk" sketchChoppable = true := by decide +kernel
+theorem T_C11_choppable_SplineDisk : sketchNamed "SplineDisk" sketchChoppable = true := by decide +kernel
+theorem T_C11_choppable_QuarterSplineRing : sketchNamed "QuarterSplineRing" sketchChoppable = true := by
+  decide +kernel
+theorem T_C11_choppable_HalfSplineRing : sketchNamed "HalfSplineRing" sketchChoppable = true := by decide +kernel
+theorem T_C11_choppable_SplineRing : sketchNamed "SplineRing" sketchChoppable = true := by decide +kernel
+
+/-- the same for whatever the table holds now (also classes added later) -/
+theorem T_C11_choppable_sketches : ∀ e ∈ CBV.Gen.c11Sketches, sketchChoppable e = true := by decide +kernel
+
+/-- quad maps (`sketchConformal`): four different points per quad; two quads share nothing, one point, or
+    one edge which they traverse in opposite directions (so one right-handed block makes all of them
+    right-handed); every point index is used (expected vertex count of a tier) -/
+theorem T_C11_conformal_sketches : ∀ e ∈ CBV.Gen.c11Sketches, sketchConformal e = true := by decide +kernel
+
+/-- lofting the quad map in grid order reproduces, vertex number by vertex number, the blocking
+    `Mesh.assemble` builds for the extruded probe and the two-tier stack, and `Sketch.chops` evaluates to
+    the (operation, axis) pairs the calls really chop -/
+theorem T_C11_loft_matches_probes : ∀ e ∈ CBV.Gen.c11Sketches, sketchMatchesProbes e = true := by decide +kernel
+
+/-- every probe shape of the table (Cylinder, SemiCylinder, Frustum, Elbow, Hemisphere, Extruded/Revolved
+    rings with 3..12 segments, L/T/N joints with 2..6 branches, extruded sketches, stacks): the documented
+    chop calls reach every axis (`writeOk`) and no wire family receives chops from two different calls -/
+theorem T_C11_choppable_shapes : ∀ s ∈ CBV.Gen.c11Shapes, shapeChoppable s = true := by decide +kernel
+
+/-- the round shapes and rings chop every family exactly once (Hemisphere and the joints chop some
+    families twice within one call, with the same arguments, on congruent blocks) -/
+theorem T_C11_once_shapes :
+    ∀ name ∈ onceShapes, shapeNamed name (fun s => separated s.2.1 (dispNodes s.2.2)) = true := by
+  decide +kernel
+
+/-- the ring hand model `ringQuads` / `ringChopNodes` gives blocking and chop dispatch of the
+    `ExtrudedRing` probes (a test of the hand model against the source, for the sizes in the table) -/
+theorem T_C11_ring_model_matches_probes : ∀ n ∈ [3, 4, 5, 6, 8, 12], ringMatchesProbe n = true := by decide +kernel
+
+/-- the grid hand model `gridQuads` gives the blocking of the `ExtrudedStack(Grid(n, m), k)` probes -/
+theorem T_C11_grid_model_matches_probes :
+    ∀ g ∈ CBV.Gen.c11GridProbes, canon (stackBlocks (gridQuads g.1 g.2.1) g.2.2.1) = g.2.2.2 := by decide +kernel
+
+/-! ## Part C — all sizes -/
+
+/-- a ring (`Annulus` lofted, any number of segments `n`): `chop_axial` (operation 0), `chop_radial`
+    (`shell[0]`) and `chop_tangential` (every operation) reach every axis of every block -/
+theorem T_C11_ring (n : Nat) : writeOk (stackBlocks (ringQuads n) 1) (ringChopNodes n) = true := by
+  rw [T_C11_write_ok_iff, ring_length]
+  have hlen := ring_length n
+  have hT : (wireTable (stackBlocks (ringQuads n) 1)).length = 3 * n := by rw [wireTable_length, hlen]
+  have hrad : ∀ i, i < n → Reach (wireTable (stackBlocks (ringQuads n) 1)) (ringChopNodes n) (3 * i) := by
+    intro i
+    induction i with
+    | zero => intro h; exact Reach.seed (by simp [ringChopNodes]) (by omega)
+    | succ i ih =>
+      intro h
+      have hadj := adj_of_sharesEdge (stackBlocks (ringQuads n) 1) i (i + 1) 0 0 (by omega) (by omega) (by omega)
+        (by omega) (ring_radial_shared n i h)
+      exact Reach.step (ih (by omega)) hadj (by omega)
+  have hax : ∀ i, i < n → Reach (wireTable (stackBlocks (ringQuads n) 1)) (ringChopNodes n) (3 * i + 2) := by
+    intro i
+    induction i with
+    | zero => intro h; exact Reach.seed (by simp [ringChopNodes]) (by omega)
+    | succ i ih =>
+      intro h
+      have hadj := adj_of_sharesEdge (stackBlocks (ringQuads n) 1) i (i + 1) 2 2 (by omega) (by omega) (by omega)
+        (by omega) (ring_axial_shared n i h)
+      exact Reach.step (ih (by omega)) hadj (by omega)
+  have htan : ∀ i, i < n → Reach (wireTable (stackBlocks (ringQuads n) 1)) (ringChopNodes n) (3 * i + 1) := by
+    intro i h
+    refine Reach.seed ?_ (by omega)
+    simp only [ringChopNodes, List.mem_append, List.mem_map, List.mem_range]
+    exact Or.inr ⟨i, h, rfl⟩
+  intro node hnode
+  have hd : node = 3 * (node / 3) + node % 3 := by omega
+  have hi : node / 3 < n := by omega
+  have hm : node % 3 = 0 ∨ node % 3 = 1 ∨ node % 3 = 2 := by omega
+  rcases hm with h | h | h <;> rw [hd, h]
+  · exact hrad _ hi
+  · exact htan _ hi
+  · exact hax _ hi
+
+/-- non-vacuity: a ring of 5 segments, and the same statement failing without the radial chop -/
+example : writeOk (stackBlocks (ringQuads 5) 1) (ringChopNodes 5) = true := T_C11_ring 5
+example : writeOk (stackBlocks (ringQuads 5) 1) ((ringChopNodes 5).erase 0) = false := by decide +kernel
+
+/-- a stack of any number of tiers over any well-formed quad map: if the documented calls `chop(0)`,
+    `chop(1)`, `chop(2)` make the single lofted shape fully choppable, then `shapes[0].chop(0)`,
+    `shapes[0].chop(1)` and `Stack.chop()` make the stack of `k` tiers fully choppable -/
+theorem T_C11_stack_of_tier (Q : List (List Nat)) (hw : WfQuads Q) (chops : List (List Nat))
+    (h1 : writeOk (stackBlocks Q 1) (chopNodes chops) = true) (k : Nat) :
+    writeOk (stackBlocks Q k) (stackChopNodes chops Q.length k) = true := by
+  rw [T_C11_write_ok_iff] at h1 ⊢
+  rw [stack_length] at h1 ⊢
+  have hc1 : chopNodes chops = (chopNodesAxis chops 0 ++ chopNodesAxis chops 1) ++ [2] := rfl
+  have hck : stackChopNodes chops Q.length k =
+      (chopNodesAxis chops 0 ++ chopNodesAxis chops 1) ++ axialSeeds Q.length k := rfl
+  rw [hc1] at h1
+  rw [hck]
+  have h01 : ∀ s ∈ chopNodesAxis chops 0 ++ chopNodesAxis chops 1, s % 3 ≠ 2 := by
+    intro s hs
+    rcases List.mem_append.mp hs with h | h
+    · exact chopNodesAxis_mod chops 0 (by omega) s h
+    · exact chopNodesAxis_mod chops 1 (by omega) s h
+  intro node hnode
+  by_cases hq : Q.length = 0
+  · rw [hq] at hnode; omega
+  · have hpos : 0 < 3 * Q.length := by omega
+    have hl : node / (3 * Q.length) < k := by
+      apply Nat.div_lt_of_lt_mul
+      have : 3 * Q.length * k = 3 * (k * Q.length) := by
+        rw [Nat.mul_assoc, Nat.mul_comm Q.length k]
+      omega
+    have hn : node % (3 * Q.length) < 3 * Q.length := Nat.mod_lt _ hpos
+    have hr := stack_reach Q hw _ h01 k (node / (3 * Q.length)) hl (node % (3 * Q.length))
+      (h1 _ (by omega))
+    have e : node % (3 * Q.length) + 3 * (node / (3 * Q.length) * Q.length) = node := by
+      have h := Nat.mod_add_div node (3 * Q.length)
+      have : 3 * Q.length * (node / (3 * Q.length)) = 3 * (node / (3 * Q.length) * Q.length) := by
+        rw [Nat.mul_assoc, Nat.mul_comm Q.length]
+      omega
+    rw [e] at hr
+    exact hr
+
+/-- every sketch class of the table, stacked to any number of tiers `k`, is fully choppable by
+    `shapes[0].chop(0)`, `shapes[0].chop(1)`, `Stack.chop()` (Extruded / Revolved / Transformed stacks
+    have this topology) -/
+theorem T_C11_stack (e : SketchEntry) (he : e ∈ CBV.Gen.c11Sketches) (k : Nat) :
+    writeOk (loftOf e k) (stackChopNodes e.chops e.quads.length k) = true := by
+  have h1 := T_C11_choppable_sketches e he
+  have h2 := T_C11_conformal_sketches e he
+  unfold sketchChoppable at h1
+  unfold sketchConformal at h2
+  simp only [Bool.and_eq_true] at h1 h2
+  exact T_C11_stack_of_tier e.quads (wf_of_conformal _ h2.1) e.chops h1.1 k
+
+/-- non-vacuity: the hypotheses hold for a concrete class, e.g. 7 tiers of the oval sketch -/
+example : sketchNamed "Oval" (fun e => writeOk (loftOf e 7) (stackChopNodes e.chops e.quads.length 7)) = true := by
+  decide +kernel
+
+/-- rings stacked to any number of tiers (`ExtrudedRing.chain` repeated): axial chop per tier;
+    conditional form, the hypothesis is discharged for `2 ≤ n` below -/
+theorem T_C11_ring_stack_of_wf (n k : Nat) (hn : ∀ q ∈ ringQuads n, q.length = 4 ∧ q.Nodup) :
+    writeOk (stackBlocks (ringQuads n) k)
+      ([0] ++ (List.range n).map (fun i => 3 * i + 1) ++ axialSeeds (ringQuads n).length k) = true := by
+  rw [T_C11_write_ok_iff, stack_length]
+  have h1 := T_C11_ring n
+  rw [T_C11_write_ok_iff, stack_length] at h1
+  have h01 : ∀ s ∈ [0] ++ (List.range n).map (fun i => 3 * i + 1), s % 3 ≠ 2 := by
+    intro s hs
+    simp only [List.mem_append, List.mem_singleton, List.mem_map, List.mem_range] at hs
+    rcases hs with rfl | ⟨i, _, rfl⟩ <;> omega
+  have hseeds : ∀ node, Reach (wireTable (stackBlocks (ringQuads n) 1)) (ringChopNodes n) node →
+      Reach (wireTable (stackBlocks (ringQuads n) 1)) (([0] ++ (List.range n).map (fun i => 3 * i + 1)) ++ [2]) node := by
+    intro node h
+    apply reach_mono _ h
+    intro x hx
+    simp only [ringChopNodes, List.mem_append, List.mem_cons, List.mem_map, List.mem_range, List.not_mem_nil,
+      or_false] at hx ⊢
+    rcases hx with (h | h) | h
+    · exact Or.inr h
+    · exact Or.inl (Or.inl h)
+    · exact Or.inl (Or.inr h)
+  intro node hnode
+  by_cases hq : (ringQuads n).length = 0
+  · rw [hq] at hnode; omega
+  · have hpos : 0 < 3 * (ringQuads n).length := by omega
+    have hl : node / (3 * (ringQuads n).length) < k := by
+      apply Nat.div_lt_of_lt_mul
+      have : 3 * (ringQuads n).length * k = 3 * (k * (ringQuads n).length) := by
+        rw [Nat.mul_assoc, Nat.mul_comm (ringQuads n).length k]
+      omega
+    have hnn : node % (3 * (ringQuads n).length) < 3 * (ringQuads n).length := Nat.mod_lt _ hpos
+    have hr := stack_reach (ringQuads n) hn _ h01 k _ hl _
+      (hseeds _ (h1 (node % (3 * (ringQuads n).length)) (by omega)))
+    have e : node % (3 * (ringQuads n).length) + 3 * (node / (3 * (ringQuads n).length) * (ringQuads n).length) = node := by
+      have h := Nat.mod_add_div node (3 * (ringQuads n).length)
+      have : 3 * (ringQuads n).length * (node / (3 * (ringQuads n).length)) =
+          3 * (node / (3 * (ringQuads n).length) * (ringQuads n).length) := by
+        rw [Nat.mul_assoc, Nat.mul_comm (ringQuads n).length]
+      omega
+    rw [e] at hr
+    exact hr
+
+theorem T_C11_ring_stack (n k : Nat) (h : 2 ≤ n) :
+    writeOk (stackBlocks (ringQuads n) k)
+      ([0] ++ (List.range n).map (fun i => 3 * i + 1) ++ axialSeeds (ringQuads n).length k) = true :=
+  T_C11_ring_stack_of_wf n k (ringQuads_wf n h)
+
+example : ∀ q ∈ ringQuads 6, q.length = 4 ∧ q.Nodup := ringQuads_wf 6 (by omega)
+
+
+/-! ### chained shapes (index level): consecutive tiers share exactly the layer between them -/
+
+/-- a shape chained to the end sketch of a shape with the same quad map is the next tier of the stack:
+    the vertices the two tiers have in common are exactly the points of the interface layer
+    (all `nPoints Q` of them when every point index is used, cf. `T_C11_conformal_sketches`) … -/
+theorem T_C11_chain_interface (Q : List (List Nat)) (hused : allPointsUsed Q = true) (l v : Nat) :
+    (v ∈ tierVerts Q l ∧ v ∈ tierVerts Q (l + 1)) ↔
+      ((l + 1) * nPoints Q ≤ v ∧ v < (l + 2) * nPoints Q) := by
+  have e1 : (l + 1) * nPoints Q = l * nPoints Q + nPoints Q := Nat.succ_mul _ _
+  have e2 : (l + 2) * nPoints Q = l * nPoints Q + nPoints Q + nPoints Q := by
+    rw [show l + 2 = (l + 1) + 1 from rfl, Nat.succ_mul, e1]
+  have e3 : (l + 1 + 1) * nPoints Q = l * nPoints Q + nPoints Q + nPoints Q := e2
+  constructor
+  · rintro ⟨h1, h2⟩
+    obtain ⟨q, hq, i, hi, hv⟩ := mem_tierVerts.mp h1
+    obtain ⟨q', hq', j, hj, hv'⟩ := mem_tierVerts.mp h2
+    have hi' := point_lt_nPoints hq hi
+    have hj' := point_lt_nPoints hq' hj
+    rcases hv with hv | hv <;> rcases hv' with hv' | hv' <;> omega
+  · rintro ⟨h1, h2⟩
+    have hlt : v - (l + 1) * nPoints Q < nPoints Q := by omega
+    obtain ⟨q, hq, hi⟩ := (allPointsUsed_iff Q).mp hused _ hlt
+    constructor
+    · exact mem_tierVerts.mpr ⟨q, hq, _, hi, Or.inr (by omega)⟩
+    · exact mem_tierVerts.mpr ⟨q, hq, _, hi, Or.inl (by omega)⟩
+
+/-- … and tiers that are not consecutive have no vertex in common -/
+theorem T_C11_chain_disjoint (Q : List (List Nat)) (l l' v : Nat) (h : l + 1 < l') :
+    ¬ (v ∈ tierVerts Q l ∧ v ∈ tierVerts Q l') := by
+  rintro ⟨h1, h2⟩
+  obtain ⟨q, hq, i, hi, hv⟩ := mem_tierVerts.mp h1
+  obtain ⟨q', hq', j, hj, hv'⟩ := mem_tierVerts.mp h2
+  have hi' := point_lt_nPoints hq hi
+  have hj' := point_lt_nPoints hq' hj
+  have e1 : (l + 1) * nPoints Q = l * nPoints Q + nPoints Q := Nat.succ_mul _ _
+  have e2 : (l' + 1) * nPoints Q = l' * nPoints Q + nPoints Q := Nat.succ_mul _ _
+  have hle : (l + 2) * nPoints Q ≤ l' * nPoints Q := Nat.mul_le_mul_right _ (by omega)
+  have e3 : (l + 2) * nPoints Q = l * nPoints Q + nPoints Q + nPoints Q := by
+    rw [show l + 2 = (l + 1) + 1 from rfl, Nat.succ_mul, e1]
+  rcases hv with hv | hv <;> rcases hv' with hv' | hv' <;> omega
+
+/-- non-vacuity: the four-core disk uses all of its 17 points; tiers 0 and 1 share the 17 points of layer 1 -/
+example : sketchNamed "FourCoreDisk" (fun e => allPointsUsed e.quads && decide (nPoints e.quads = 17)) = true := by
+  decide +kernel
+
+/-! ## Part D — the handedness validator under placements -/
+
+/-- the corner triple product is multiplied by the determinant of the linear part, the translation drops out -/
+theorem T_C11_triple_affine (r1 r2 r3 t p a b c : V3) :
+    triple (place r1 r2 r3 t a - place r1 r2 r3 t p) (place r1 r2 r3 t b - place r1 r2 r3 t p)
+        (place r1 r2 r3 t c - place r1 r2 r3 t p) =
+      det3 r1 r2 r3 * triple (a - p) (b - p) (c - p) := by
+  simp only [triple, det3, place, lin, V3.dot, V3.cross_x, V3.cross_y, V3.cross_z, V3.sub_x, V3.sub_y, V3.sub_z,
+    V3.add_x, V3.add_y, V3.add_z]
+  ring
+
+theorem T_C11_det_quat (w x y z s : Rat) :
+    det3 (quatRows w x y z s).1 (quatRows w x y z s).2.1 (quatRows w x y z s).2.2 =
+      (s * (w * w + x * x + y * y + z * z)) ^ 3 := by
+  simp only [det3, triple, quatRows, V3.dot, V3.cross_x, V3.cross_y, V3.cross_z]
+  ring
+
+/-- … which is positive for every rotation (non-zero quaternion) combined with a positive scaling -/
+theorem T_C11_det_quat_pos (w x y z s : Rat) (hs : 0 < s) (hq : w ≠ 0 ∨ x ≠ 0 ∨ y ≠ 0 ∨ z ≠ 0) :
+    0 < det3 (quatRows w x y z s).1 (quatRows w x y z s).2.1 (quatRows w x y z s).2.2 := by
+  rw [T_C11_det_quat]
+  have hn : 0 < w * w + x * x + y * y + z * z := by
+    rcases hq with h | h | h | h
+    · have := mul_self_pos.mpr h
+      nlinarith [mul_self_nonneg x, mul_self_nonneg y, mul_self_nonneg z]
+    · have := mul_self_pos.mpr h
+      nlinarith [mul_self_nonneg w, mul_self_nonneg y, mul_self_nonneg z]
+    · have := mul_self_pos.mpr h
+      nlinarith [mul_self_nonneg w, mul_self_nonneg x, mul_self_nonneg z]
+    · have := mul_self_pos.mpr h
+      nlinarith [mul_self_nonneg w, mul_self_nonneg x, mul_self_nonneg y]
+  positivity
+
+/-- a block keeps its handedness under every placement with positive determinant: the validator's verdict
+    on a placed block is its verdict on the block itself -/
+theorem T_C11_rightHanded_placed (r1 r2 r3 t : V3) (hdet : 0 < det3 r1 r2 r3) (pts : List V3) :
+    rightHanded (pts.map (place r1 r2 r3 t)) = rightHanded pts := by
+  unfold rightHanded
+  by_cases hlen : pts.length = 8
+  · match pts, hlen with
+    | [p0, p1, p2, p3, p4, p5, p6, p7], _ =>
+      have key : ∀ c, c < 8 →
+          cornerJac ([p0, p1, p2, p3, p4, p5, p6, p7].map (place r1 r2 r3 t)) c =
+            det3 r1 r2 r3 * cornerJac [p0, p1, p2, p3, p4, p5, p6, p7] c := by
+        intro c hc
+        have : c = 0 ∨ c = 1 ∨ c = 2 ∨ c = 3 ∨ c = 4 ∨ c = 5 ∨ c = 6 ∨ c = 7 := by omega
+        rcases this with rfl | rfl | rfl | rfl | rfl | rfl | rfl | rfl <;>
+          simp only [cornerJac, cornerNbrs, List.map, List.getD_cons_zero, List.getD_cons_succ] <;>
+          exact T_C11_triple_affine _ _ _ _ _ _ _ _
+      have hb : badCorners ([p0, p1, p2, p3, p4, p5, p6, p7].map (place r1 r2 r3 t)) =
+          badCorners [p0, p1, p2, p3, p4, p5, p6, p7] := by
+        unfold badCorners
+        apply List.filter_congr
+        intro c hc
+        rw [key c (List.mem_range.mp hc)]
+        have : (0 < det3 r1 r2 r3 * cornerJac [p0, p1, p2, p3, p4, p5, p6, p7] c) ↔
+            (0 < cornerJac [p0, p1, p2, p3, p4, p5, p6, p7] c) := by
+          constructor
+          · intro h
+            by_contra hn
+            have : cornerJac [p0, p1, p2, p3, p4, p5, p6, p7] c ≤ 0 := not_lt.mp hn
+            nlinarith
+          · intro h; positivity
+        simp only [this]
+      rw [hb]
+      simp
+  · have h1 : ((pts.map (place r1 r2 r3 t)).length == 8) = false := by simp [hlen]
+    have h2 : (pts.length == 8) = false := by simp [hlen]
+    simp [h2]
+
+/-- non-vacuity: the unit cube is right-handed, its mirror image is not -/
+example : rightHanded [⟨0, 0, 0⟩, ⟨1, 0, 0⟩, ⟨1, 1, 0⟩, ⟨0, 1, 0⟩, ⟨0, 0, 1⟩, ⟨1, 0, 1⟩, ⟨1, 1, 1⟩, ⟨0, 1, 1⟩] = true := by
+  decide +kernel
+example : rightHanded [⟨0, 0, 0⟩, ⟨1, 0, 0⟩, ⟨1, 1, 0⟩, ⟨0, 1, 0⟩, ⟨0, 0, -1⟩, ⟨1, 0, -1⟩, ⟨1, 1, -1⟩, ⟨0, 1, -1⟩] = false := by
+  decide +kernel
+
+/-- the neighbour table of the validator agrees with the generated edge table: every corner is joined to
+    its three listed neighbours by block edges, one along every axis -/
+theorem T_C11_corner_nbrs :
+    ∀ c ∈ List.range 8, ∀ a ∈ List.range 3,
+      (let n := cornerNbrs.getD c (0, 0, 0)
+       ([n.1, n.2.1, n.2.2].filter (fun m =>
+          (CBV.Gen.axisPairs.getD a []).any (fun p => (p.1 == c && p.2 == m) || (p.1 == m && p.2 == c)))).length) = 1 := by
+  decide
 
 end CBV.C11
